@@ -548,6 +548,16 @@ fn c20_families(thorough: bool) -> Vec<(String, Pats, bool)> {
         ("n65-prefixfree".into(), nfam(65), true),
         ("n1000".into(), (0..1000u32).map(|i| format!("p{}x{}", i, i % 7).into_bytes()).collect(), false),
     ];
+    // pattern lengths around 256 (u8 offset table of the rare-byte
+    // prefilter): alone, first, in the middle and last of a list
+    for len in [254usize, 255, 256, 257, 258] {
+        let mut p = vec![b'e'; len - 1];
+        p.push(b'z');
+        v.push((format!("len{}-single", len), vec![p.clone()], true));
+        v.push((format!("len{}-middle", len), vec![b("foo"), p.clone(), b("quux")], true));
+        v.push((format!("len{}-first", len), vec![p.clone(), b("tq")], len == 256));
+        v.push((format!("len{}-last-after-rare", len), vec![b("ez"), b("tq"), b(" j"), p.clone()], len == 256));
+    }
     if thorough {
         v.push(("n5000".into(), (0..5000u32).map(|i| format!("w{}q{}", i, i % 13).into_bytes()).collect(), false));
         v.push(("n2000-long".into(), (0..2000u32).map(|i| format!("{:0>40}", i).into_bytes()).collect(), false));
